@@ -158,6 +158,9 @@ fn check(rep: &mut Report, prog: &[u8], origin: &str, rng: &mut Rng) {
     if rep.want_sample() && rep.get("evaluations") % 5003 == 7 {
         rep.sample(json!({"prog": hex(&prog[..prog.len().min(256)]), "len": prog.len(), "origin": origin, "reference": format!("{want:?}"), "real": format!("{got:?}")}));
     }
+    if bad.is_none() && rng.chance(1, 4) {
+        check_same_address(rep, prog, &want, rng);
+    }
     if let Some((k, detail)) = bad {
         let rule = match &want {
             Err(r) => *r,
@@ -168,6 +171,70 @@ fn check(rep: &mut Report, prog: &[u8], origin: &str, rng: &mut Rng) {
         let sig = format!("C06:{k}:{rule}:{}", if k == "wrongly-rejected" { said } else { String::new() });
         let p = if prog.len() <= 4096 { hex(prog) } else { format!("{}...({} bytes)", hex(&prog[..256]), prog.len()) };
         rep.violation(&sig, detail, json!({"kind": "verify-case", "prog": p, "len": prog.len(), "origin": origin, "vm": kind.name(), "via_set_program": via_set, "disasm": genp::disasm_lossy(&prog[..prog.len().min(8 * 48) / 8 * 8], 48)}));
+    }
+}
+
+/// Re-load on a VM that already holds ANOTHER slice starting at the same address (a shorter or a
+/// longer slice of the same buffer): the verdict must be the reference's for the slice now loaded.
+fn check_same_address(rep: &mut Report, prog: &[u8], want: &Result<(), &'static str>, rng: &mut Rng) {
+    if prog.len() > 8 * 4096 || prog.is_empty() || prog.len() % 8 != 0 {
+        return;
+    }
+    // (first slice, second slice) as lengths into one buffer
+    let mut buf = prog.to_vec();
+    let (first, second): (usize, usize) = match want {
+        Ok(()) => {
+            // extend the accepted program by one instruction; the reference judges the longer slice
+            let tail = *rng.pick(&[Insn::new(JA, 0, 0, 100, 0), Insn::new(0xff, 0, 0, 0, 0), Insn::new(EXIT, 0, 0, 0, 0), Insn::new(MOV64_IMM, 0, 0, 0, 7), Insn::new(LDDW, 1, 0, 0, 5)]);
+            buf.extend_from_slice(&tail.bytes());
+            (prog.len(), buf.len())
+        }
+        Err(_) => {
+            // a well-formed prefix ending in `exit`, if there is one
+            let mut k = 8;
+            let mut found = None;
+            while k < prog.len() && found.is_none() {
+                if prog[k - 8] == EXIT && ref_verify(&prog[..k]).is_ok() {
+                    found = Some(k);
+                }
+                k += 8;
+            }
+            match found {
+                Some(k) => (k, prog.len()),
+                None => return,
+            }
+        }
+    };
+    buf.shrink_to_fit();
+    let want2 = ref_verify(&buf[..second]);
+    let kind = crate::engines::KINDS[rng.below(4) as usize];
+    let r = sys::catch(|| -> Result<Result<(), String>, String> {
+        let mut vm = Vm::new(kind, Some(&buf[..first]), (0, 8)).map_err(|e| format!("first slice refused: {e}"))?;
+        Ok(vm.set_program(&buf[..second], (0, 8)))
+    });
+    rep.count("same_address_reloads");
+    let (got, msg) = match r {
+        Ok(Ok(Ok(()))) => (Real::Ok, String::new()),
+        Ok(Ok(Err(e))) => (Real::Err, e),
+        Ok(Err(e)) => {
+            rep.violation("C06:wrongly-rejected:well-formed:first-slice", format!("a slice the reference accepts was refused: {e}"), json!({"kind": "verify-case", "prog": hex(&buf[..first.min(4096)]), "len": first, "origin": "same-address-reload", "vm": kind.name()}));
+            return;
+        }
+        Err(p) => (Real::Panic, p),
+    };
+    let bad = match (&want2, got) {
+        (_, Real::Panic) => Some(("panic", format!("verifier panicked: {msg}"))),
+        (Ok(()), Real::Err) => Some(("wrongly-rejected", format!("well-formed program refused: {msg}"))),
+        (Err(rule), Real::Ok) => Some(("wrongly-accepted", format!("ill-formed program accepted (rule: {rule})"))),
+        _ => None,
+    };
+    if let Some((k, detail)) = bad {
+        let rule = match &want2 {
+            Err(r) => *r,
+            Ok(()) => "well-formed",
+        };
+        rep.violation(&format!("C06:{k}:{rule}:same-address-reload"), format!("{detail} - the VM held the first {first} bytes of the same buffer when the {second}-byte slice was loaded"),
+            json!({"kind": "verify-case", "prog": hex(&buf[..second.min(4096)]), "len": second, "first_slice_len": first, "origin": "same-address-reload", "vm": kind.name(), "via_set_program": true}));
     }
 }
 
